@@ -139,7 +139,7 @@ func c20() {
 	}
 
 	// Part A1: bounded exhaustive inputs, every fault index, both modes.
-	maxLen := r.Pick(5, 7)
+	maxLen := r.Pick(5, 6)
 	strs := abStrings(maxLen)
 	maxes := []uint64{1, 2, 0}
 	r.Note("bounded_space", fmt.Sprintf("%d strings over {a,b} up to length %d as base and target, block sizes 1..len(base)+1 and automatic, maximum data sizes {1,2,default}; for each: every operation index as failure point x {transient, persistent}", len(strs), maxLen))
